@@ -132,7 +132,7 @@ impl Check for Refactor {
     }
     fn rule(&self) -> String {
         match self.prop {
-            "C09" => "case = one generated (formatted) library served by the real LSP loop; for every note and every line: codeAction, and for each offered extract-section / extract-sub-sections / inline-section / inline-quote: codeAction/resolve, edit applied to a copy of the library by the harness's own WorkspaceEdit model (rejects create-on-existing etc.); oracles: fresh key, conservation of the block multiset (+1 reference per extracted section, -1 reference and deleted note per inline), extracted note = the subtree with promoted headings, remaining blocks keep order, links resolve to the same notes from the new location, result is a formatting fixpoint, extract(first sub-section) then inline == original bytes; H4 forces the first key candidates to collide with existing notes; distinct = (action kind, container chain of the target, section depth) combinations".into(),
+            "C09" => "case = one generated (formatted) library served by the real LSP loop; for every note and every line: codeAction, and for each offered extract-section / extract-sub-sections / inline-section / inline-quote: codeAction/resolve, edit applied to a copy of the library by the harness's own WorkspaceEdit model (rejects create-on-existing etc.); oracles: fresh key, conservation of the block multiset (+1 reference per extracted section, -1 reference and deleted note per inline), extracted note = the subtree with promoted headings and nothing else (no front matter of the source), front matter of existing notes kept, remaining blocks keep order, links resolve to the same notes from the new location, result is a formatting fixpoint, extract(first sub-section) then inline == original bytes; H4 forces the first key candidates to collide with existing notes; distinct = (action kind, container chain of the target, section depth) combinations".into(),
             _ => "case = as C09 for section-to-list, list-to-sections, change-list-type: block word-runs conserved in order, blocks outside the target untouched, result is a formatting fixpoint, change-type twice == original bytes, section-to-list then list-to-sections == original bytes; distinct = (action kind, target container chain, list kind) combinations".into(),
         }
     }
